@@ -11,6 +11,8 @@ CONSTANTS
   AtomicAlloc = TRUE
   IdDecode = "strict"
   IdVocab = "small"
+  KindShift = 0
+  NullResult = "ok"
 INIT Init
 NEXT Next
 INVARIANTS TypeOK RegisteredBeforeSending
